@@ -106,7 +106,8 @@ class FileObj:
         """write(2): returns number of bytes accepted or None on error (ENOSPC/EFBIG model)."""
         d, fs = self.desc, self.desc.fs
         n = len(items)
-        if fs.fault_at is not None:
+        only = getattr(fs, "fault_path", None)          # optional: the fault budget applies to writes to this path only
+        if fs.fault_at is not None and (only is None or fs.files.get(only) is d.fdata):
             room = fs.fault_at - fs.written
             if room <= 0:
                 fs.faulted = True
@@ -120,7 +121,8 @@ class FileObj:
             data.extend(Int(8, 0, 0) for _ in range(pos - len(data)))
         data[pos:pos + n] = items[:n]
         d.pos = pos + n
-        fs.written += n
+        if only is None or fs.files.get(only) is d.fdata:
+            fs.written += n
         return n
 
     def write_all(self, e, items):
@@ -164,17 +166,29 @@ class BufWriterObj:
         self.inner, self.cap, self.buf, self.panicked = inner, cap, [], False
         self.variant = None
 
+    def _inner_write_all(self, e, items):
+        w = self.inner
+        while isinstance(w, Ref):               # BufWriter<Box<dyn Write>> / BufWriter<&mut W>
+            w = e.load(w)
+        if isinstance(w, VecObj):
+            w.e.extend(items); return True
+        if hasattr(w, "write_all"):
+            return w.write_all(e, items)
+        if hasattr(w, "write_model"):
+            return w.write_model(e, items)
+        raise Unsupported(f"BufWriter over {w!r}")
+
     def write_all(self, e, items):
         if len(self.buf) + len(items) > self.cap:
             if not self.flush(e):
                 return False
         if len(items) >= self.cap:
-            return self.inner.write_all(e, items)
+            return self._inner_write_all(e, items)
         self.buf.extend(items)
         return True
 
     def flush(self, e):
-        okk = self.inner.write_all(e, self.buf)
+        okk = self._inner_write_all(e, self.buf)
         self.buf = []
         return okk
 
